@@ -8,9 +8,10 @@ NOTE = ("Trusted: Coq 8.16.1 kernel incl. vm_compute; the go/ast table extractor
 TECH = "Coq proof over a hand-written Gallina model + tables regenerated from Go source; differential correspondence of the extracted model with the Go code"
 C = {}
 C["C12"] = ("Coq theorems (all keys, all lengths): the table in util.go regenerated from source equals the XMODEM table; the table-driven fold equals bit-by-bit CRC16/XMODEM; "
-            "hashtag equals the declarative first-{ / first-} rule; slot = crc mod 16384 < slotNum. Tie: table regenerated on every run; crc16/hashtag/chooseHost run against the "
+            "hashtag equals the declarative first-{ / first-} rule; slot = crc mod 16384 < slotNum; the Go functions crc16 and hashtag themselves, translated into Gallina on every run "
+            "(gen/trans.go -> Gen/Funcs.v), are proved equal to these models (C12_translated_code). Tie: table and the two functions regenerated on every run; crc16/hashtag/chooseHost run against the "
             "extracted model on every key of length <= 2, all brace placements up to length 7 and random keys.",
-            "Model of the fold/hashtag loops is hand-written; bytes < 256.", "DESIGN.md §4 C12")
+            "The translator covers a small Go fragment (header of gen/trans.go) and does not model run-time panics; chooseHost's use of the two functions is tied by the differential run; bytes < 256.", "DESIGN.md §4 C12")
 C["C10"] = ("Coq theorems: (1) every operation of the buffered reader refines the flat-stream operation for every buffer size >= 1, every sequence of read sizes and every source error; "
             "(2) hence decoding ANY byte stream is independent of chunking; (3) decode(encode v ++ rest) = v, rest for every well-formed value (any nesting) and buffer >= 22; "
             "(4) concatenations decode to exactly their messages under every chunking; (5) inline = array form; (6) btoi64 = ParseInt spec, itoa = decimal text for all integers. "
@@ -31,7 +32,8 @@ C["C14"] = ("Coq theorems over the dispatch model instantiated with the handler 
             "Redis' command flags are a trusted transcription; replica choice by wall-clock checked as set membership; Unicode case mapping facts of Go assumed.", "DESIGN.md §4 C14")
 C["C18"] = ("Coq theorems: the composed cursor decodes back to (node index, node cursor) for every index < 2^16 and node cursor < 2^48; a cursor whose index is past the last node yields the "
             "terminating reply; for every list of fewer than 65535 nodes whose own cursor chains (any non-zero values below 2^48) return to 0, the client iteration from 0 ends at cursor 0 after "
-            "exactly sum(chain)+1 calls, returns exactly the nodes' key batches and visits each node once along its chain. Tie: the real handleScan/Convert/reply hook driven through the "
+            "exactly sum(chain)+1 calls, returns exactly the nodes' key batches and visits each node once along its chain; parseCursor/genCursor as translated from request.go on every run are the "
+            "model's functions (C18_translated_code). Tie: the real handleScan/Convert/reply hook driven through the "
             "white-box environment: full client iterations over scripted nodes (cursors around 2^47/2^48) and single calls with boundary cursors and malformed node replies vs the extracted model.",
             "Host list unchanged during an iteration; node cursors below 2^48; more than 32767 nodes exceed int64 cursors (documented boundary).", "DESIGN.md §4 C18")
 C["C13"] = ("Coq theorems for an abstract compressor (any comp/decomp with decomp(comp x)=Some x) over the magic number, value positions, disabled-command and skip lists regenerated from "
